@@ -86,3 +86,15 @@ func PH2(a int) int {
 	}
 	return s - 434343
 }
+
+// S3 is a 24-byte struct result type.
+type S3 struct{ A, B, C int }
+
+//go:noinline
+func FS(a int) S3 { Counter++; return S3{a, -1, -1} }
+
+//go:noinline
+func FP(a int) *T { Counter++; return nil }
+
+//go:noinline
+func FSP(a int) (int, S3, *T) { Counter++; return -1, S3{}, nil }
